@@ -1,7 +1,7 @@
 (* C11 — Cell expressions denote the Boolean function MCNP assigns to them.
    Only restatements; proofs are in C11/Proofs.v. Spec vocabulary: C11/Spec.v. *)
 From Coq Require Import List NArith ZArith Bool String Ascii Lia.
-From T4V Require Import Base.Str C11.Model C11.Spec C11.Proofs C11.LexProofs C11.LexSound C11.Layout C11.Pipeline C11.Sound C11.Complete C11.Loop C11.Card.
+From T4V Require Import Base.Str C11.Model C11.Spec C11.Proofs C11.LexProofs C11.LexSound C11.Layout C11.Pipeline C11.Sound C11.Complete C11.Loop C11.Card C11.Handover.
 Import ListNotations.
 Close Scope string_scope.
 Open Scope list_scope.
@@ -41,10 +41,31 @@ Theorem C11_eliminate_all_den : forall (tbl : table) rk, table_ok (lookup tbl) r
   exists F tbl', (forall f, F <= f -> eliminate_all f tbl = Ok tbl') /\
     forall n c, lookup tbl n = Some c ->
       exists c', lookup tbl' n = Some c' /\ a_plain (c_geom c') = true /\
+        a_nonzero (c_geom c') = true /\
         forall sg cd, cells_meaning (lookup tbl) sg cd ->
           aden cd sg (c_geom c') = aden cd sg (c_geom c).
 Proof. exact eliminate_all_den. Qed.
 Print Assumptions C11_eliminate_all_den.
+
+(* ---- hand-over to C01 (pot_flag and after) ----
+   C01's model starts from trees of ('*', l, r) / (':', l, r) nodes with
+   Surface leaves of non-zero number.  In this model: [a_plain t] = only
+   AAnd / AOr nodes over ASurf leaves (no '^', no raw list), [a_nonzero t] = all
+   surface numbers non-zero; C11_eliminate_all_den above gives both, with the
+   meaning preserved, for every cell of every well-founded table.
+   UNCONDITIONALLY (any table: cyclic, dangling, lattice cells; any fuel):
+   whenever complement elimination returns a tree, no '^' node is left in it
+   ([no_compl]: AAnd / AOr / the raw '*' list of a lattice complement, over
+   ASurf leaves) -- for one call and for the whole in-place loop *)
+Theorem C11_handover_no_complement : forall cells f a t,
+  pot_complement f cells a = Ok t -> no_compl t = true.
+Proof. exact pot_complement_no_compl. Qed.
+Print Assumptions C11_handover_no_complement.
+
+Theorem C11_handover_loop : forall f (tbl tbl' : table), eliminate_all f tbl = Ok tbl' ->
+  forall n c', lookup tbl' n = Some c' -> no_compl (c_geom c') = true.
+Proof. exact eliminate_all_no_compl. Qed.
+Print Assumptions C11_handover_loop.
 
 Theorem C11_pot_complement_lattice_empty : forall cells n c z sub f,
   cells n = Some c -> c_lattice c = true -> first_surface (c_geom c) = Some (ASurf z sub) -> z <> 0%Z ->
@@ -188,13 +209,15 @@ Print Assumptions C11_get_ast_accepts_iff.
    a card  name blanks mat [blanks rho] blanks E options : name and material
    number are digit strings ("0"... = void, then no density), the density is
    made of digits, signs and '.', E consists of expression characters and starts
-   with a non-blank, the options (if any) start with a letter or '*' right after
+   with a non-blank and is separated from the material part by g3 blanks
+   ([sep_ok]: g3 may be 0 when an opening parenthesis follows a density,
+   "3 -2.7(1:2)"), the options (if any) start with a letter or '*' right after
    a ')' or a blank.  split() returns E with its leading blanks as the geometry
    and the options untouched *)
 Theorem C11_split_card : forall name g1 mat rho g3 E opts,
   digits_ok name = true -> mat_ok mat rho ->
-  str_forall expr_char E = true -> head_sat nonblank E = true -> opts_ok E opts ->
-  split_card (card_body name g1 mat rho g3 E ++ opts)%string = Ok ((blanks (S g3) ++ E)%string, opts).
+  str_forall expr_char E = true -> head_sat nonblank E = true -> sep_ok rho g3 E -> opts_ok E opts ->
+  split_card (card_body name g1 mat rho g3 E ++ opts)%string = Ok ((blanks g3 ++ E)%string, opts).
 Proof. exact split_card_wellformed. Qed.
 Print Assumptions C11_split_card.
 
@@ -205,7 +228,7 @@ Theorem C11_card_geometry : forall name g1 mat rho g3 (e : mexpr) w r trail opts
   let ws := (0, w) :: r in
   digits_ok name = true -> mat_ok mat rho ->
   wf_written ws = true -> tokens_written ws = toks 0 e ->
-  opts_ok (render ws trail) opts ->
+  sep_ok rho g3 (render ws trail) -> opts_ok (render ws trail) opts ->
   exists geom, split_card (card_body name g1 mat rho g3 (render ws trail) ++ opts)%string = Ok (geom, opts) /\
                get_ast geom = psem e.
 Proof. exact card_geometry. Qed.
@@ -262,7 +285,7 @@ Example C11_example_card :
   let ws := [(0, WHashN 0 "5"); (1, WLP); (0, WLit false false "1" None); (0, WColon);
              (0, WLit true false "2" None); (0, WRP)]%string in
   mat_ok "3"%string (Some (0, "-2.7"%string)) /\ opts_ok (render ws 0) "imp:n=1 u=2"%string /\
-  (card_body "12" 0 "3" (Some (0, "-2.7")) 0 (render ws 0) ++ "imp:n=1 u=2" = "12 3 -2.7 #5 (1:-2)imp:n=1 u=2")%string /\
+  (card_body "12" 0 "3" (Some (0, "-2.7")) 1 (render ws 0) ++ "imp:n=1 u=2" = "12 3 -2.7 #5 (1:-2)imp:n=1 u=2")%string /\
   split_card "12 3 -2.7 #5 (1:-2)imp:n=1 u=2"%string = Ok (" #5 (1:-2)"%string, "imp:n=1 u=2"%string).
 Proof.
   cbv zeta. split; [|split; [|split]].
@@ -271,6 +294,13 @@ Proof.
   - reflexivity.
   - vm_compute. reflexivity.
 Qed.
+
+(* the density glued to an opening parenthesis *)
+Example C11_example_card_glued :
+  sep_ok (Some (0, "-2.7"%string)) 0 "(1:-2) 3"%string /\
+  (card_body "12" 0 "3" (Some (0, "-2.7")) 0 "(1:-2) 3" ++ "" = "12 3 -2.7(1:-2) 3")%string /\
+  split_card "12 3 -2.7(1:-2) 3"%string = Ok ("(1:-2) 3"%string, ""%string).
+Proof. split; [|split]; [right; split; [discriminate|reflexivity]|reflexivity|vm_compute; reflexivity]. Qed.
 
 (* non-vacuity of the end-to-end theorem: cells 1 = "-1 2", 2 = "#1 : 3",
    and the expression "#2 #1" *)
